@@ -52,6 +52,16 @@ class HostileWorld(W.FaultyWorld):
             pq = P.parse(q) if q and q[:3] != C.RAW_HEADER[:3] else None
         except P.Malformed:
             pq = None
+        if pq and rng.random() < 0.04:
+            # two consecutive fragments of one new downstream packet, each an MX/SRV answer that decodes to far more than one 4 KiB answer could
+            # carry (the MX/SRV path is not bounded by the 4 KiB rdata buffer): reassembly must stay inside its buffer
+            pq2 = dict(pq); pq2["qd"] = [(pq["qd"][0][0], rng.choice([15, 33]), 1)]
+            seq, dn = rng.randrange(8), rng.choice("TV")
+            n = rng.choice([20000, 36000, 50000])
+            for frag, last in ((0, 0), (1, rng.choice([0, 1]))):
+                pay = bytes([0x80 | rng.randrange(128), (seq << 5) | (frag << 1) | last]) + bytes(rng.randrange(256) for _ in range(n))
+                out.append(C.server_answer(pq2, pay, dn))
+            return out
         if k < 0.45 and pq:
             first = pq["qd"][0][0][:1]
             pay = self.hostile_payload(first)
